@@ -2525,14 +2525,14 @@ func (a *Authenticator) exchangeKey(ctx context.Context, negotiation *SecurityNe
 			slog.Info(fmt.Sprintf("🔑 CLIENT: Receiving key - length: %d, protocol: %d, duration: %d, inputLen: %d",
 				keyLength, protocol, duration, inputLen), "destination", "cedar")
 
-			// Read encrypted key data
-			encryptedKey := make([]byte, inputLen)
-			for i := 0; i < inputLen; i++ {
-				b, err := msg.GetChar(ctx)
-				if err != nil {
-					return fmt.Errorf("failed to get encrypted key byte %d: %w", i, err)
-				}
-				encryptedKey[i] = b
+			// Read encrypted key data. inputLen is the peer's claim: read through
+			// GetBytes, which allocates only once that many bytes have arrived.
+			if inputLen < 0 {
+				return fmt.Errorf("invalid encrypted key length: %d", inputLen)
+			}
+			encryptedKey, err := msg.GetBytes(ctx, inputLen)
+			if err != nil {
+				return fmt.Errorf("failed to get %d bytes of encrypted key: %w", inputLen, err)
 			}
 
 			// TODO: Unwrap the key using the authenticator
